@@ -161,6 +161,24 @@ def drive(ctx, case, parts, d):
         got = np.asarray(ind[:])
         if got.shape != exp.shape or not np.array_equal(got, exp):
             return f'{name}[:] is not the concatenation of the parts', spanned
+    # --- strided head slices whose phase differs from the part boundaries (cheap: timestamps + one vis read)
+    srng = random.Random(case['seed'])
+    for _ in range(6):
+        step = srng.randint(2, 5)
+        start = srng.randint(0, max(0, T - 1))
+        stop = srng.choice([None, srng.randint(start, T)])
+        sl = slice(start, stop, step)
+        if len(range(*sl.indices(T))) == 0:
+            continue
+        got = np.asarray(d.timestamps[sl])
+        if got.shape != ts[sl].shape or not np.array_equal(got, ts[sl]):
+            return (f'timestamps[{start}:{stop}:{step}] across part boundaries = {got.tolist()} but indexing the '
+                    f'concatenated array gives {ts[sl].tolist()}'), spanned
+        ctx.tag('strided-head')
+    sl = slice(srng.randint(0, min(2, T - 1)), None, srng.randint(3, 4))
+    got = np.asarray(d.vis[sl])
+    if got.shape != vis[sl].shape or not np.array_equal(got, vis[sl]):
+        return f'vis[{sl.start}::{sl.step}] across part boundaries differs from indexing the concatenated array', spanned
     # --- scan / compscan indices continue across parts
     for sensor in ('Observation/scan_index', 'Observation/compscan_index'):
         v = [int(x) for x in d.sensor[sensor]]
